@@ -192,7 +192,11 @@ def run_repeated(case, bus, ex):
             st = zoo.build(ex, it)
             rs = ex.RepeatedStepper(st, n)
             C = zoo.channels(it)
-            kind = "nyqfree" if (N % 2 == 0 and (has_odd_linear(it) or name == "stepper.Wave")) else "white"
+            # precondition of the property: on even N the n-fold application passes through physical space after every step, which re-symmetrises the Nyquist
+            # planes; symbols that are odd in a single wavenumber component (odd-order terms, the wave rotation, and mixed second derivatives k_i k_j of a full
+            # diffusivity matrix) are not Hermitian-symmetric there, so the comparison is made on Nyquist-free states
+            mixed = any(isinstance(val, list) and val and isinstance(val[0], list) for val in it["kw"].values())
+            kind = "nyqfree" if (N % 2 == 0 and (has_odd_linear(it) or name == "stepper.Wave" or mixed)) else "white"
             u = G.random_state(rng, kind, C, D, N, amp=0.4)
             v = jnp.asarray(u)
             for _ in range(n):
@@ -284,6 +288,11 @@ def run_icset(case, bus, ex):
         ref.append(np.asarray(gen(N, key=sub)))
     ref = np.stack(ref)
     ok_shape = got.shape == ref.shape
+    if ok_shape and not np.all(np.isfinite(ref)):
+        # degenerate draw (e.g. unit-std normalisation of a constant field): the set must reproduce the loop entry by entry, NaNs included
+        same = np.array_equal(np.isnan(got), np.isnan(ref)) and np.allclose(np.nan_to_num(got), np.nan_to_num(ref), rtol=1e-12, atol=0)
+        bus.judge("build_ic_set", 0.0 if same else 1.0, 0.5, sig + ("degenerate draw",), witness=dict(info, note="non-finite entries in the loop reference"), nontrivial=False)
+        return
     bus.judge("build_ic_set", float(np.max(np.abs(got - ref))) / (float(np.max(np.abs(ref))) + 1e-300) if ok_shape else np.inf, 1e-12, sig, sample=info,
               witness=dict(info, shapes=[list(got.shape), list(ref.shape)]))
 
